@@ -65,9 +65,18 @@ Definition cose_key_of_cbor (c : cbor) : option cose_key :=
   | _ => None
   end.
 
+(* a member of a serde struct as ciborium's struct visitor finds it: the member name written as a text string
+   or as a BYTE string with the same bytes (ciborium accepts both for identifiers; a bit flip of an authentic
+   MSO reaches the second form).  Both forms present at once is a duplicate-field error, i.e. e_mso_ok = false. *)
+Definition struct_get (name : bytes) (m : list (cbor * cbor)) : option cbor :=
+  match map_get (CText name) m with
+  | Some v => Some v
+  | None => map_get (CBytes name) m
+  end.
+
 Definition mso_device_key (mso : list (cbor * cbor)) : option cose_key :=
-  match map_get (tx "deviceKeyInfo") mso with
-  | Some (CMap dki) => match map_get (tx "deviceKey") dki with Some k => cose_key_of_cbor k | None => None end
+  match struct_get (bytes_of_string "deviceKeyInfo") mso with
+  | Some (CMap dki) => match struct_get (bytes_of_string "deviceKey") dki with Some k => cose_key_of_cbor k | None => None end
   | _ => None
   end.
 
